@@ -60,10 +60,10 @@ The misses and what was changed (every one is caught now; no check was loosened 
   writer leaves old metadata over partly new data): every crash stream wrote to a fresh path, where mode `w` and the seeded `r+` fallback coincide; kind `over_kill` and the field `pre` of `cli_kill` now start from an output path that already holds another, the same, a truncated or a foreign file and kill the writer at every storage call after it opened the path.
 
 * Round 5: 15 of 20 caught at once.  C02 (dtype of the unsigned view computed once from the FIRST element of a
-  reference list: a list mixing dtypes is reinterpreted): ROUND5_C02.  C03 (ancestor list memoised per ORM object and
+  reference list: a list mixing dtypes is reinterpreted): every reference collection of the harness had a single dtype; kind `mixed` now builds collections whose elements differ in dtype (all 36 ordered pairs, narrow / wide first, first element empty) for every container and bulk entry point.  C03 (ancestor list memoised per ORM object and
   not invalidated when an ancestor is re-parented: classify, edit the taxonomy, classify again): ROUND5_C03.  C06 (per-thread
   scratch accumulator not cleared after a read that fails part-way: the next genome absorbs the leftovers):
-  ROUND5_C06.  C09 (report_closest clamped to the database size and written back to the caller's QueryParams: reuse
+  every file the harness read was well-formed, at a fresh path, with nothing run before it; kind `history` now runs 1-5 earlier calls in the same thread (reads failing part-way in six ways, dirty caller accumulators, reused executors, the same path rewritten) before computing the genome through eight entry points.  C09 (report_closest clamped to the database size and written back to the caller's QueryParams: reuse
   against a larger database gives a short list): ROUND5_C09.  C19 (SIGTERM handler calling sys.exit, so that a
   terminated writer closes the file cleanly): the harness only knew hard kills; extending it to exception deaths showed
   that the UNCHANGED code already had the defect for Ctrl-C and every other exception (section 6, repaired by a fix:
